@@ -168,14 +168,17 @@ func (p *Parser) parseColumnConstraint() (*ast.ColumnConstraint, bool, error) {
 		p.advance() // Consume REFERENCES
 		constraint.Type = "REFERENCES"
 
-		// Parse referenced table name (supports double-quoted identifiers)
+		// Parse referenced table name (schema-qualified and double-quoted names included)
 		if !p.isIdentifier() {
 			return nil, false, p.expectedError("table name after REFERENCES")
 		}
-		refDef := &ast.ReferenceDefinition{
-			Table: p.currentToken.Literal,
+		refTable, err := p.parseQualifiedName()
+		if err != nil {
+			return nil, false, err
 		}
-		p.advance()
+		refDef := &ast.ReferenceDefinition{
+			Table: refTable,
+		}
 
 		// Parse optional column list
 		if p.isType(models.TokenTypeLParen) {
@@ -323,14 +326,17 @@ func (p *Parser) parseTableConstraint() (*ast.TableConstraint, error) {
 		}
 		p.advance() // Consume REFERENCES
 
-		// Parse referenced table (supports double-quoted identifiers)
+		// Parse referenced table (schema-qualified and double-quoted names included)
 		if !p.isIdentifier() {
 			return nil, p.expectedError("table name after REFERENCES")
 		}
-		refDef := &ast.ReferenceDefinition{
-			Table: p.currentToken.Literal,
+		refTable, err := p.parseQualifiedName()
+		if err != nil {
+			return nil, err
 		}
-		p.advance()
+		refDef := &ast.ReferenceDefinition{
+			Table: refTable,
+		}
 
 		// Parse optional referenced column list
 		if p.isType(models.TokenTypeLParen) {
